@@ -4,6 +4,8 @@ mkdir -p /tmp/tlcout; rm -rf /tmp/tlcout/meta_$2
 cd /verif/spec
 OUT=/tmp/tlcout/$2.ndjson; rm -f $OUT; export OUT
 m=$1; c=$2; shift 2
-java -XX:+UseParallelGC -cp /opt/veriftools/tla/tla2tools.jar:/opt/veriftools/tla/CommunityModules-deps.jar -DTLA-Library=/verif/spec:/verif/spec/trace tlc2.TLC -workers ${WORKERS:-16} -metadir /tmp/tlcout/meta_$c -noGenerateSpecTE -config cfg/$c.cfg "$@" $m.tla 2>&1 | grep -v "^Linting\|^Semantic\|^Parsing\|^Warning\|^(Use" | cut -c1-400 | grep -A${ERRN:-14} -m1 "^Error\|violated\|states generated" 
+java -XX:+UseParallelGC -cp /opt/veriftools/tla/tla2tools.jar:/opt/veriftools/tla/CommunityModules-deps.jar -DTLA-Library=/verif/spec:/verif/spec/trace tlc2.TLC -workers ${WORKERS:-16} -metadir /tmp/tlcout/meta_$c -noGenerateSpecTE -config cfg/$c.cfg "$@" $m.tla 2>&1 > /tmp/tlcout/$c.log
+grep -v "^Linting\|^Semantic\|^Parsing\|^Warning\|^(Use" /tmp/tlcout/$c.log | cut -c1-400 | grep -A${ERRN:-14} -m1 "^Error\|violated" 
+grep "states generated\|^Finished" /tmp/tlcout/$c.log | tail -2
 rm -rf /tmp/tlcout/meta_$c
 wc -l $OUT 2>/dev/null
